@@ -43,7 +43,9 @@ func findSharedWrites(c *Ctx) (writes, unresolved []sharedWrite, stores int) {
 			unresolved = append(unresolved, sharedWrite{Fn: outerFn(at.Parent()), At: at, Phase: phase, Entry: entry})
 			return
 		}
-		if p.Obj.ID <= limit && p.Obj.Mode != ai.ModeOpaque {
+		// (opaque objects summarise values whose contents are not modelled; a map update on one is still a write
+		// into that very map)
+		if p.Obj.ID <= limit && (p.Obj.Mode != ai.ModeOpaque || strings.HasSuffix(p.Path, "{*}")) {
 			writes = append(writes, sharedWrite{Obj: p.Obj, Fn: outerFn(at.Parent()), At: at, Phase: phase, Entry: entry})
 		}
 	}
